@@ -355,8 +355,20 @@ def _solve_one_inner(args):
         ok, how = _with_alarm(8, poly_discharge, phyps, pgoal, False)
         if ok:
             return "discharged", "poly", time.time() - t0, how
-    # 2. a quick z3 attempt (most obligations are decided here)
+    # 2. a quick z3 attempt (most obligations are decided here); when hypotheses constrain nonlinear polynomials
+    #    that the goal does not mention, first without them (sound: fewer hypotheses) -- they only mislead the
+    #    arithmetic solver on goals that follow by linear reasoning and congruence
     quick = min(t_z3, 4000)
+    gsy0 = _usyms(goal)
+    lin0 = []
+    for h0 in hyps:
+        for h in _split_conj_hyp(h0):
+            if not is_nl_constraint(h) or (_usyms(h) <= gsy0):
+                lin0.append(h)
+    if len(lin0) != len(hyps) and not nl_goal:
+        rq, _, _ = _z3_cli(vc_to_smt2(lin0, goal), min(t_z3, 3000), seeds=(0, ), model=False)
+        if rq == "unsat":
+            return "discharged", "z3", time.time() - t0, "without nonlinear constraints"
     r, dt, info = _z3_cli(smt2, quick, seeds=(0, ))
     if r == "unsat":
         return "discharged", "z3", time.time() - t0, info
